@@ -38,7 +38,7 @@ SPEC = dict(
 DETERMINISM_SLICE = 12
 BW_GRAPHS = ("saved", "nosaved", "mixed", "shared-trunk")
 WIDE_M = 300
-MTL_GRAPHS = ("saved-saved", "nosaved-nosaved", "saved-nosaved", "nosaved-saved", "saved-penalty")
+MTL_GRAPHS = ("saved-saved", "nosaved-nosaved", "saved-nosaved", "nosaved-saved", "saved-penalty", "saved-regulariser")
 
 
 def _events(tier, length_total, m):
@@ -106,6 +106,12 @@ def _mtl_graph(kind, m):
     for i in range(m):
         p = torch.tensor([0.5 + i, -1.0, 2.0 - i], dtype=torch.float64, requires_grad=True)
         ps.append(p)
+        if head == "regulariser" and i == m - 1:  # the LAST loss ignores the features (pure regulariser): its Jacobian row is zero
+            losses.append((p * p).sum())
+            continue
+        if head == "regulariser":
+            losses.append((f * p).sum())
+            continue
         if head == "penalty":  # a parameter-only branch with saved tensors next to the branch through the features
             pen = (p * p).sum()
             losses.append((f * p).sum() + pen)
